@@ -970,7 +970,7 @@ func (h *c16Hist) settle() {
 			if buf == nil {
 				buf = make([]byte, 8<<20)
 			}
-			dump := string(buf[:runtime.Stack(buf, true)])
+			dump := vCanonNames(string(buf[:runtime.Stack(buf, true)]))
 			all := true
 			for _, id := range pend {
 				if !c16OnRcMutex(dump, id) {
